@@ -254,7 +254,9 @@ PROPS = {
                        "parameters). ZONEMD and record data of unknown type (unit nsec3order): Zonemd cmp/canonical_cmp are the "
                        "field order with the serial as a number and partial_cmp == Some(cmp); UnknownRecordData == is (type, octets), "
                        "cmp/partial_cmp order by type then octets and are Equal exactly on equal values, canonical_cmp is the "
-                       "octet order of the RDATA. "
+                       "octet order of the RDATA. DNSKEY and DS (real text of the impls of Dnskey and Ds): canonical_cmp == octet order "
+                       "of the RDATA (16-bit big-endian head, two octets, key or digest), cmp and partial_cmp agree with it, Dnskey == "
+                       "is field-wise. "
                        "Laws proved over the reference definitions the code is tied to: the name order is antisymmetric, "
                        "transitive, and Equal exactly on names that are name_eq (so order, equality and representation cannot "
                        "disagree). Labels, records (Kani on the compiled generic code, whose comparison code is written with "
